@@ -3,13 +3,15 @@
 (* as a test vector (the trees are printed as an AUTO file and handed to the real create_traindata).                            *)
 EXTENDS TrainData, SequencesExt
 VARIABLE src
+MCSpellOf == [w \in Words |-> CASE w = "w" -> <<"w">> [] w = "vw" -> <<"v", "w">> [] w = "vwx" -> <<"v", "w", "x">> [] w = "vwxy" -> <<"v", "w", "x", "y">> [] w = "wxyzw" -> <<"w", "x", "y", "z", "w">> [] w = "OOR2" -> <<"O", "O", "R", "2">>]
 MCInit == /\ src \in SeqsUpTo(TreesOf(Depth), MaxTrees) /\ bank = [j \in DOMAIN src |-> Flat(src[j])] /\ InitRest
 MCNext == Next /\ UNCHANGED src
 MCSpec == MCInit /\ [][MCNext]_<<vars, src>> /\ WF_vars(Next)
 BankIsTheTrees == bank = [j \in DOMAIN src |-> Flat(src[j])]
 Rows1(f) == SetToSeq({<<x, f[x]>> : x \in DOMAIN f})
 Rows2(f) == SetToSeq({<<p[1], p[2], f[p]>> : p \in DOMAIN f})
-Emit == pc = "done" => PrintT("VEC " \o ToJson([src |-> src, ccut |-> CatCut, wcut |-> WordCut, nsamples |-> nsamples,
+Emit == pc = "done" => PrintT("VEC " \o ToJson([src |-> src, ccut |-> CatCut, wcut |-> WordCut, acut |-> AfixCut, nsamples |-> nsamples,
                                                  target |-> Rows1(out.target), words |-> Rows1(out.words),
-                                                 seen |-> Rows2(out.seen), unary |-> Rows2(out.unary)]))
+                                                 seen |-> Rows2(out.seen), unary |-> Rows2(out.unary),
+                                                 prefixes |-> Rows1(out.prefixes), suffixes |-> Rows1(out.suffixes)]))
 =============================================================================
